@@ -36,7 +36,7 @@ func init() {
 			"(m:n) with begin/end, pipes with |string |number, quoted keys, :: continuation, mix=> distinct=> and harness-registered fn=>), with " +
 			"~15% deliberately invalid steps (index == len or beyond, range end > len or begin > end, index/each/key/pipe on a value of the wrong " +
 			"shape, |number on non-numeric text, unknown function or pipe type); oracle = independent reference evaluator of the documented " +
-			"meaning: valid -> deep-equal value, invalid -> an error (not a panic, not a value). Generator B (1/3): arbitrary strings over the " +
+			"meaning: valid -> deep-equal value, invalid -> an error (not a panic, not a value). A cube mode selects from regular 3-d / 4-d arrays with 2..depth index / each dimensions, half under keep=>. Generator B (1/3): arbitrary strings over the " +
 			"selector alphabet, token-level mutations of A, and well-formed multi-dimensional brackets mixing each / index / i:j / (m:n) / begin / " +
 			"end over arrays of arrays (value undocumented): the call returns (no panic). Always: the document is unchanged, the selector is " +
 			"evaluated on doc, a second document of a different shape, then doc again (cache miss, then hits) with identical outcomes. " +
@@ -487,7 +487,47 @@ func genMultiDimRaw(t *rapid.T, doc map[string]any) string {
 
 func genC09(t *rapid.T) any {
 	c := &C09Case{Doc: genSelDoc(t, "doc"), Doc2: genSelDoc(t, "doc2")}
-	switch rapid.IntRange(0, 6).Draw(t, "mode") {
+	switch rapid.IntRange(0, 7).Draw(t, "mode") {
+	case 7:
+		// cube-focused: a regular 3- or 4-dimensional array and one bracket of 2..depth dimensions, each
+		// an index or `each`, half of the time under keep=> (the selected structure stays as it is)
+		depth := rapid.IntRange(3, 4).Draw(t, "cube.depth")
+		ext := make([]int, depth)
+		for i := range ext {
+			ext[i] = rapid.IntRange(1, 3).Draw(t, fmt.Sprintf("cube.ext%d", i))
+		}
+		var build func(level, base int) any
+		build = func(level, base int) any {
+			if level == depth {
+				return float64(base)
+			}
+			out := make([]any, ext[level])
+			for i := range out {
+				out[i] = build(level+1, base*10+i+1)
+			}
+			return out
+		}
+		c.Doc["cube"] = build(0, 0)
+		nd := rapid.IntRange(2, depth).Draw(t, "cube.ndims")
+		st := selref.Step{K: "idx", Keep: rapid.Bool().Draw(t, "cube.keep")}
+		for i := 0; i < nd; i++ {
+			if rapid.IntRange(0, 2).Draw(t, fmt.Sprintf("cube.d%d.each", i)) == 0 {
+				st.Dims = append(st.Dims, selref.Dim{K: "each"})
+			} else {
+				st.Dims = append(st.Dims, selref.Dim{K: "i", I: rapid.IntRange(0, ext[i]-1).Draw(t, fmt.Sprintf("cube.d%d.i", i))})
+			}
+		}
+		sel := &selref.Selector{Parts: []selref.Part{{Steps: []selref.Step{{K: "key", Key: "cube"}, st}}}}
+		if rapid.IntRange(0, 3).Draw(t, "cube.more") == 0 {
+			if v, err := selref.Eval(sel, c.Doc); err == nil {
+				if a, ok := v.([]any); ok && len(a) > 0 {
+					invalid := false
+					sel.Parts[0].Steps = append(sel.Parts[0].Steps, genDims(t, a, &invalid, "cube.next"))
+				}
+			}
+		}
+		c.Sel = sel
+		return c
 	case 6:
 		// pipe-focused: records of scalars (numeric texts of every spelling, strings, numbers, booleans)
 		// reshaped and converted through {k|type, ...}
